@@ -6,6 +6,16 @@ BASE = "cd /repo && go test -mod=mod -json -vet=off -count=1 -timeout 25m ./..."
 
 CLAIMED = {
  # id: (category, text, design_ref, level_note, technique)
+ "C04": ("other",
+  "Structural necessary conditions of cell independence, decided on each of the 41 generated wrappers and their kernels: inputs and parameter views are never written (interprocedural effect summaries incl. Unroll aliases and closure captures); every write to states/outputs goes through a view restricted to the goroutine's own cell (pos[CELL]==i, size[CELL]==1, vectors allocated per goroutine); every broadcast `i % n` uses the extent of the array actually indexed; table parameters are cut to the cell's own length; kernel arguments are the spec's inputs/params/outputs in order. Equality of values with single-cell runs is NOT established directly.",
+  "DESIGN.md section 2, C04",
+  "ND view methods (Slice/Reshape/MustReshape/ReshapeFast) are taken to share storage (checked separately by C01/C02). Row count of pack-function results proven only for constant extents. ApplyParameters row-block arithmetic not decided.",
+  "effect summaries + reaching-store evaluation of index vectors on go/ssa, per generated wrapper"),
+ "C05": ("other",
+  "Goroutine confinement and counted join for all 43 go statements in the module: captured variables are never assigned in the goroutine nor by the spawner once it may run; shared index vectors are never written (also not through Apply's loc); shared arrays are written only through per-cell views; every goroutine path signals exactly once and the spawner's returns are dominated by a receive loop with the same count. No schedule is explored; the claim is absence of shared mutable locations, from which schedule independence follows.",
+  "DESIGN.md section 2, C05",
+  "Does not decide the writer-vs-main access to modelReference.Generations (token argument, see C07). Pointer arguments of distinct goroutines assumed distinct. No happens-before reasoning beyond the done-channel join.",
+  "escape/confinement analysis of go closures + must-pass-through send/receive join check on go/ssa CFGs"),
  "C08": ("other",
   "The lock clause is decided completely for this code base: a forward dataflow over {unlocked,R,W} with LIFO defer modelling and per-entry-state summaries covers every call path from every function that can be entered without the lock to every one of the ~570 hdf5 call sites (readers need >=R, file-mutating calls need W; goroutine bodies start unlocked). Three structural clauses are added: Create can never reach a dataset write; an existing dataset is reused only under a shape comparison that depends on both shapes; file and memory selections use the same count function. Round-trip values and selection arithmetic are value properties and NOT decided.",
   "DESIGN.md section 2, C08",
